@@ -94,6 +94,8 @@ type Case struct {
 	Config   string       `json:"config,omitempty"`  // replacement config for invalid-setting cases
 	Env      map[string]string `json:"env,omitempty"` // replacement env (wrong passphrase)
 	GoMaxPro int          `json:"gomaxprocs,omitempty"`
+	PadDesc  int          `json:"pad_desc,omitempty"` // lengthen the description by this many bytes (alignment sweeps)
+	Key      string       `json:"key,omitempty"`      // harness key the case's configuration signs with (matrix cases)
 }
 
 type InvalidCase struct {
@@ -127,6 +129,7 @@ type Env07 struct {
 	History      int    `json:"history"`  // unrelated packagings earlier in the process
 	Neighbour    bool   `json:"neighbour"`
 	Child        bool   `json:"child"` // cross-process through the CLI
+	Relocate     bool   `json:"relocate,omitempty"` // build from a second copy of the tree at another path, created in reverse order
 }
 
 type C07Plan struct {
@@ -136,6 +139,7 @@ type C07Plan struct {
 }
 
 type C10Plan struct {
+	Sweep      bool   `json:"sweep,omitempty"` // metadata-length sweep across block/alignment boundaries
 	Cases      []Case `json:"cases,omitempty"`
 	SrcMode    string `json:"src_mode,omitempty"`
 	GoMaxProcs int    `json:"gomaxprocs,omitempty"`
@@ -162,6 +166,7 @@ type Client struct {
 	Format string `json:"format"`
 	Kind   string `json:"kind"`             // package | prepare (Get + WithDefaults + PrepareForPackager only, then parked)
 	Name   bool   `json:"name,omitempty"`   // ask for the conventional file name first
+	Validate bool `json:"validate,omitempty"` // call Config.Validate first
 	Signer bool   `json:"signer,omitempty"` // own simulated signer (deb/rpm/apk)
 }
 
